@@ -602,8 +602,52 @@ func runC11(c *Ctx) {
 			checkPrefix(c, f, pf, file, cut, id)
 		}
 	}
+	runC11Big(c)
+	runC11Trailer(c)
+	runC11Resonant(c)
 	if c.Thorough {
 		runC11Large(c)
+	}
+}
+
+// runC11Big: EVERY prefix of one file of 100-250 KiB per tier-0 shape (uncompressed, small
+// integers and short strings, so that byte patterns which look like plausible footer
+// lengths — 00 00 01 00 and friends — occur at many offsets beyond 64 KiB).
+func runC11Big(c *Ctx) {
+	for _, sh := range c.SelShapes() {
+		if sh.Name != "p1" && !(c.Thorough && (sh.Name == "p2" || sh.Name == "p4")) {
+			continue
+		}
+		s := sh.Schema()
+		for _, codec := range []int{0} {
+			id0 := fmt.Sprintf("%s/%s/big", sh.Name, CodecNames[codec])
+			if c.Only != "" && !strings.HasPrefix(c.Only, id0+"/") {
+				continue
+			}
+			rng := Rng(c.Seed, "c11big/"+id0)
+			recs := GenRecords(s, GenRandom, 700, rng, false)
+			f := &ioFile{ID: id0, Shape: sh, Codec: codec, Page: 300, Recs: recs, Part: []int{400, 300}, Kind: "big"}
+			file, ok := f.write(c)
+			if !ok {
+				continue
+			}
+			pf, err := pqfile.Parse(file)
+			if err != nil {
+				continue
+			}
+			if c.Shard == 0 {
+				c.Out.Count("files", 1)
+				c.Out.Count("big_file_bytes", int64(len(file)))
+			}
+			for cut := 0; cut < len(file); cut++ {
+				id := fmt.Sprintf("%s/cut=%d", id0, cut)
+				if !c.Take(id) {
+					continue
+				}
+				c.Out.Count("big_file_cuts", 1)
+				checkPrefix(c, f, pf, file, cut, id)
+			}
+		}
 	}
 }
 
@@ -704,6 +748,182 @@ func runC11Large(c *Ctx) {
 				c.Out.Count("large_file_cuts", 1)
 				checkPrefix(c, f, pf, file, cut, id)
 			}
+		}
+	}
+}
+
+// runC11Trailer: many tiny files, only the cuts that remove 1..8 trailing
+// bytes. A reader that trusts the four bytes it finds where the footer length
+// should be — without checking the magic behind them — accepts a file cut
+// before its trailing magic whenever the tail of the footer happens to look
+// like a plausible length; whether that happens depends on the exact footer
+// size, so the family varies row counts, row-group counts and codecs.
+func runC11Trailer(c *Ctx) {
+	rgMax := 6
+	early := []int{1, 2, 3, 9, 70}
+	if c.Thorough {
+		rgMax = 12
+		early = []int{1, 2, 3, 5, 9, 17, 33, 70, 129, 300}
+	}
+	for _, sh := range c.SelShapes() {
+		s := sh.Schema()
+		var counter uint64
+		pool, _ := EnumStructures(s, lensSmall, 64, &counter)
+		mk := func(id string, codec, g, e, r int) (*ioFile, []byte, *pqfile.File) {
+			var recs []*dremel.Tree
+			var part []int
+			for i := 0; i < g-1; i++ {
+				for j := 0; j < e; j++ {
+					recs = append(recs, pool[(i+j)%len(pool)])
+				}
+				part = append(part, e)
+			}
+			for i := 0; i < r; i++ {
+				recs = append(recs, pool[(i+g)%len(pool)])
+			}
+			part = append(part, r)
+			f := &ioFile{ID: id, Shape: sh, Codec: codec, Page: 1000, Recs: recs, Part: part, Kind: "trailer"}
+			file, ok := f.write(c)
+			if !ok {
+				return nil, nil, nil
+			}
+			pf, err := pqfile.Parse(file)
+			if err != nil {
+				return nil, nil, nil
+			}
+			return f, file, pf
+		}
+		for _, codec := range []int{0, 1, 2} {
+			for g := 1; g <= rgMax; g++ {
+				for _, e := range early {
+					if g == 1 && e != early[0] {
+						continue
+					}
+					id0 := fmt.Sprintf("%s/%s/trailer/g=%d/e=%d", sh.Name, CodecNames[codec], g, e)
+					if !c.Take(id0 + "/") {
+						continue
+					}
+					// The size of the footer hardly depends on the number of rows r of the last row
+					// group, while the last four footer bytes are "16 <2r> 00 00" for r < 64: probe with
+					// r = 1, then write the file again with the r for which those bytes, read as a
+					// little-endian length, come closest to a length that fits the file.
+					f, file, pf := mk(id0+"/r=1", codec, g, e, 1)
+					if f == nil {
+						continue
+					}
+					rs := []int{1}
+					if cand := (pf.FooterLen - 26 + 256) / 512; cand >= 2 && cand < 64 {
+						rs = append(rs, cand)
+					}
+					for _, r := range rs {
+						if r != 1 {
+							f, file, pf = mk(fmt.Sprintf("%s/r=%d", id0, r), codec, g, e, r)
+							if f == nil {
+								continue
+							}
+						}
+						c.Out.Count("trailer_files", 1)
+						tail := int(file[len(file)-12]) | int(file[len(file)-11])<<8 | int(file[len(file)-10])<<16 | int(file[len(file)-9])<<24
+						if tail == pf.FooterLen-4 {
+							c.Out.Count("trailer_files_whose_footer_tail_looks_like_a_length", 1)
+						}
+						c.Out.Max("trailer_closest_miss_bytes_inverted", int64(100000-abs(tail-(pf.FooterLen-4))))
+						for k := 1; k <= 8; k++ {
+							cut := len(file) - k
+							checkPrefix(c, f, pf, file, cut, fmt.Sprintf("%s/cut=%d", f.ID, cut))
+						}
+					}
+				}
+			}
+		}
+	}
+}
+
+func abs(x int) int {
+	if x < 0 {
+		return -x
+	}
+	return x
+}
+
+// runC11Resonant: valid files from the reference writer whose footer ends in
+// a created_by string chosen so that the last four footer bytes, read as a
+// little-endian integer, equal the footer length minus 4. Cutting off the
+// trailing magic then leaves a file whose "footer length" field (really the
+// end of the footer) points exactly at the footer start: only a reader that
+// checks the trailing magic rejects it.
+func runC11Resonant(c *Ctx) {
+	for _, sh := range c.SelShapes() {
+		id0 := sh.Name + "/resonant-footer"
+		if c.Only != "" && !strings.HasPrefix(c.Only, id0+"/") {
+			continue
+		}
+		sc := sh.Schema()
+		var counter uint64
+		pool, _ := EnumStructures(sc, lensSmall, 12, &counter)
+		var file []byte
+		var pf *pqfile.File
+		for n := 0; n < 1500 && file == nil; n++ {
+			for _, guess := range []int{0} {
+				_ = guess
+				// two passes: the first measures the footer length with a placeholder tail
+				mkfile := func(tail []byte) ([]byte, *pqfile.File) {
+					rgs, err := baseRowGroups(sc, pool, []int{len(pool)}, pqfile.CUncompressed)
+					if err != nil {
+						return nil, nil
+					}
+					cb := "verif reference writer " + strings.Repeat("x", n) + string(tail)
+					b, err := pqfile.WriteFile(&sc.Root.Node, rgs, pqfile.WOptions{CreatedBy: cb})
+					if err != nil {
+						return nil, nil
+					}
+					p, err := pqfile.Parse(b)
+					if err != nil {
+						return nil, nil
+					}
+					return b, p
+				}
+				b, p := mkfile([]byte{'a', 'b', 0})
+				if b == nil {
+					break
+				}
+				want := p.FooterLen - 4
+				t := []byte{byte(want), byte(want >> 8), byte(want >> 16)}
+				if t[0] >= 0x80 || t[1] >= 0x80 || t[2] != 0 {
+					continue // keep created_by valid UTF-8
+				}
+				b, p = mkfile(t)
+				if b == nil {
+					break
+				}
+				got := int(b[len(b)-12]) | int(b[len(b)-11])<<8 | int(b[len(b)-10])<<16 | int(b[len(b)-9])<<24
+				if got == p.FooterLen-4 {
+					file, pf = b, p
+				}
+			}
+		}
+		if file == nil {
+			c.Out.Inconclusive("no resonant footer could be constructed for " + sh.Name)
+			continue
+		}
+		// the complete file must be readable (it is valid)
+		f := &ioFile{ID: id0, Shape: sh, Recs: pool, Kind: "resonant"}
+		full := ReadAll(sh, NewSource(file), len(pool)+5)
+		if full.Panic != nil || full.Reported() || CompareRecs(sc, pool, full.Recs) != "" {
+			c.Out.Inconclusive(fmt.Sprintf("resonant file for %s does not read back in full (a C04 matter): ctor=%v err=%v", sh.Name, full.CtorErr, full.Err))
+			continue
+		}
+		if c.Shard == 0 {
+			c.Out.Count("resonant_footer_files", 1)
+		}
+		for k := 1; k <= 12; k++ {
+			cut := len(file) - k
+			id := fmt.Sprintf("%s/cut=%d", id0, cut)
+			if !c.Take(id) {
+				continue
+			}
+			c.Out.Count("resonant_footer_cuts", 1)
+			checkPrefix(c, f, pf, file, cut, id)
 		}
 	}
 }
